@@ -414,19 +414,16 @@ func simultaneousCase(t *testing.T, idx int64, r *rand.Rand) {
 					}
 					if f.Count > windowSize && f.Count > 0 && d.RTT == f.MinRTT && d.InFlight == f.MaxIF && d.Drop == f.Drop {
 						legal = true
+						// what was not part of the delivered window is pending in the next one - all of it: a completion is
+						// folded into exactly one window, it is never wiped by the reset another completion's update performs
 						rest := (1<<k - 1) &^ mask
-						for sub := rest; ; sub = (sub - 1) & rest { // every subset of the rest may have survived the reset
-							g := newFold()
-							for i, x := range comps {
-								if sub&(1<<i) != 0 {
-									g = addTo(g, x)
-								}
-							}
-							next = append(next, g)
-							if sub == 0 {
-								break
+						g := newFold()
+						for i, x := range comps {
+							if rest&(1<<i) != 0 {
+								g = addTo(g, x)
 							}
 						}
+						next = append(next, g)
 					}
 				}
 			}
